@@ -271,7 +271,8 @@ func typeDecls(c *spec.Case, pkgKey string) string {
 		case spec.KIface:
 			fmt.Fprintf(&sb, "type %s interface {\n\t%s() uint32\n}\n\n", t.Name, t.Method)
 			fmt.Fprintf(&sb, "func %s(h uint32) %s { return %s(h) }\n\n", exp(mk(id)), t.Name, helperRef(c, t.Impl, pkgKey, "mk"))
-			fmt.Fprintf(&sb, "func %s(x %s) uint32 {\n\tif x == nil {\n\t\treturn 0\n\t}\n\treturn x.%s()\n}\n\n", exp(vh(id)), t.Name, t.Method)
+			// a typed nil inside the interface (zero value of a pointer implementation) hashes to 0
+			fmt.Fprintf(&sb, "func %s(x %s) (h uint32) {\n\tif x == nil {\n\t\treturn 0\n\t}\n\tdefer func() {\n\t\tif recover() != nil {\n\t\t\th = 0\n\t\t}\n\t}()\n\treturn x.%s()\n}\n\n", exp(vh(id)), t.Name, t.Method)
 		case spec.KGeneric:
 			// generic declaration is emitted once per name
 			first := true
@@ -391,7 +392,7 @@ func compositeHelpers(c *spec.Case) string {
 			fmt.Fprintf(&sb, "func %s(x %s) uint32 { return %s(x.A) }\n\n", vh(id), ex, vh(t.Elem))
 		case spec.KAIface:
 			fmt.Fprintf(&sb, "func %s(h uint32) %s { return %s(h) }\n\n", mk(id), ex, mk(t.Elem))
-			fmt.Fprintf(&sb, "func %s(x %s) uint32 {\n\tif x == nil {\n\t\treturn 0\n\t}\n\treturn x.%s()\n}\n\n", vh(id), ex, c.T(t.Elem).Method)
+			fmt.Fprintf(&sb, "func %s(x %s) (h uint32) {\n\tif x == nil {\n\t\treturn 0\n\t}\n\tdefer func() {\n\t\tif recover() != nil {\n\t\t\th = 0\n\t\t}\n\t}()\n\treturn x.%s()\n}\n\n", vh(id), ex, c.T(t.Elem).Method)
 		case spec.KGeneric:
 			fmt.Fprintf(&sb, "func %s(h uint32) %s { return %s{h: h} }\n\n", mk(id), ex, ex)
 			fmt.Fprintf(&sb, "func %s(x %s) uint32 { return x.h }\n\n", vh(id), ex)
